@@ -183,6 +183,10 @@ class _CryptConfig:
 
         # load source config into internal storage
         for (cat, scheme, key), value in source.items():
+            if value is None and (scheme or key in _global_settings):
+                # a hasher option given as None is "not set" (which is what using() makes of it);
+                # it is not stored, so that whatever to_dict() exports can be written by to_string()
+                continue
             categories.add(cat)
             explicit_scheme = scheme
             if not cat and not scheme and key in _global_settings:
